@@ -31,6 +31,6 @@ Judge == l <= Len(Rec) =>
   /\ (r.a = "op" /\ Single(r) /\ r.res # "ok") =>
         \A s \in Srvs : (Own(r.st, s) = Own(Rec[l - 1].st, s) \/ PrintT(<<"L1FAIL", "C15", l, s \o " left-behind">>))
   /\ (r.a = "op" /\ r.op.op \in {"create", "modify"} /\ r.applies = 1) =>
-        (r.res = L2Result(r.defect) \/ PrintT(<<"L2DRIFT", "C15", l>>))
+        (r.res \in L2Result(r.defect) \/ PrintT(<<"L2DRIFT", "C15", l>>))
 Consumed == TLCGet("stats").distinct = Len(Rec) + 1 \/ PrintT(<<"NOTCONSUMED", TLCGet("stats").distinct, Len(Rec)>>)
 =============================================================================
